@@ -102,6 +102,14 @@ mutual
           let c2 := c1.applyResult r
           let s1 := { s with status := c2.status, trace := c2.trace }
           (s1, errexitS ctx s1)
+      | .asyncWait body =>
+        let (c1, r) := specList fuel ctx.sub s body
+        match r with
+        | .outOfFuel => (s, .outOfFuel)
+        | r =>
+          let c2 := c1.applyResult r
+          let s1 := { s with status := 0, trace := c2.trace }
+          (s1, errexitS ctx s1)
       | .ifc cond body elifs els =>
         let (s1, r) := specList fuel ctx.cond s cond
         match r with
